@@ -17,6 +17,7 @@ import concurrent.futures as cf
 import json
 import os
 import random
+import shutil
 import time
 
 import evalfam
@@ -229,11 +230,11 @@ def gen_re_cases(r, subjects, re0, re1, flagsets, quick):
                 for f in (["g"] if quick else [None, "g"]):
                     out.append((V(s), V(txt(re)), F(f)))
     # 2. depth-1 regexes x exhaustive short subjects (sampled product)
-    for _ in range(1500 if quick else 60000):
+    for _ in range(1500 if quick else 40000):
         out.append((V(r.choice(subjects)), V(txt(r.choice(re1))), F(r.choice(fl_all if r.random() < 0.15 else fl_valid))))
     # 3. deeper regexes x longer random subjects
     pool = re0 + re1
-    for _ in range(700 if quick else 20000):
+    for _ in range(700 if quick else 15000):
         out.append((V(long_subject(r)), V(compose(r, pool, r.choice([0, 1, 1, 2]))), F(r.choice(fl_valid))))
     # 4. argument types: not a string subject / regex / flags
     odd = [None, 1, ["a"], {"a": 1}, True]
@@ -357,8 +358,12 @@ def check_cases(rep, work, vh, prelude, cases, tag, timeout):
             continue
         same = all(again.get(f) == run.get(f) for f in ("out", "err", "panic"))
         if not same:
-            bump("nondeterministic")
-            rep.violation("non-deterministic result: " + what, dict(replay, second=again))
+            # not reproduced on the second execution: never a verdict (rule: only reproduced behaviour counts)
+            bump("irreproducible")
+            rep.count("out_of_model")
+            if counters["irreproducible"] <= 3:
+                rep.notes.append("not reproduced on a second execution (undecided): %s: first %s, second %s" % (
+                    what, json.dumps(run.get("err") or outs(run["out"]))[:200], json.dumps(again.get("err") or outs(again["out"]))[:200]))
             continue
         fid = match_known(rep, case, k, run)
         if fid:
@@ -393,9 +398,13 @@ def run(tier, seed, replay):
                         "assumptions of RegexMC: rune-boundary offsets, first = prefix of all, deterministic leftmost matching)",
                         "the jq source of every program kind in checks/c14.py is what the comments of ValidateRegex.tla say",
                         "replacement filters of sub/gsub are evaluated by JqSem.tla on the AST of the real parser"]
-    vh, _ = vc.build()
+    vh0, _ = vc.build()
     work = vc.Work(PROP)
     try:
+        # a private copy: build/vh is shared and rebuilt by every check that starts while this one runs
+        vh = work.path("vh")
+        shutil.copyfile(vh0, vh)
+        os.chmod(vh, 0o755)
         prelude = make_prelude(work, vh)
         if replay:
             rec = json.load(open(replay))
